@@ -312,3 +312,106 @@ Proof.
   - exfalso. apply Ha. rewrite <- Ec. now apply in_map.
   - exfalso. apply Ha. rewrite Ec. now apply in_map.
 Qed.
+
+(* ------------------------------------------------------------------------ *)
+(* every event is the annotation of a Source / Operation leaf of the
+   expression, with the type that leaf carries *)
+
+Fixpoint cleaves (e : cexpr) : list cexpr :=
+  match e with
+  | CSrc _ _ | CVar _ | COp _ _ _ => [e]
+  | CApp _ f x _ => cleaves f ++ cleaves x
+  | CAbs _ _ b => cleaves b
+  end.
+
+Definition ev_of_leaf (v : ev) (l : cexpr) : Prop :=
+  match v, l with
+  | EvSrc _ t, CSrc _ t' => t = t'
+  | EvOp _ j out _, COp _ j' out' => j = j' /\ out = out'
+  | _, _ => False
+  end.
+
+Definition LeafStmt (e : cexpr) : Prop :=
+  forall cur im g n g' evs, concepts e cur im g = Some (n, g', evs) ->
+  forall v, In v evs -> exists l, In l (cleaves e) /\ ev_of_leaf v l.
+
+Lemma leaves_rec e : LeafStmt e /\ (forall j ps b, e = CAbs j ps b -> LeafStmt b).
+Proof.
+  induction e as [i t | v | i j out | i f IHf x IHx fn | j ps b IHb].
+  - split; [|intros ? ? ? E; discriminate E].
+    intros cur im g n g' evs E v Hv. cbn [concepts] in E.
+    destruct (memo_find (ckey (CSrc i t)) (g_memo g)) as [n0|].
+    + injection E as <- <- <-. destruct Hv.
+    + injection E as <- <- <-. destruct Hv as [<-|[]].
+      exists (CSrc i t). split; [now left | reflexivity].
+  - split; [|intros ? ? ? E; discriminate E].
+    intros cur im g n g' evs E v0 Hv. cbn [concepts] in E.
+    destruct (memo_find (ckey (CVar v)) (g_memo g)) as [n0|]; [|discriminate].
+    injection E as <- <- <-. destruct Hv.
+  - split; [|intros ? ? ? E; discriminate E].
+    intros cur im g n g' evs E v Hv. cbn [concepts] in E.
+    destruct (memo_find (ckey (COp i j out)) (g_memo g)) as [n0|].
+    + injection E as <- <- <-. destruct Hv.
+    + injection E as <- <- <-. destruct Hv as [<-|[]].
+      exists (COp i j out). split; [now left | split; reflexivity].
+  - split; [|intros ? ? ? E; discriminate E].
+    destruct IHf as [IHf _]. destruct IHx as [IHx IHb].
+    intros cur im g n g' evs E v Hv. cbn [concepts] in E.
+    destruct (memo_find (ckey (CApp i f x fn)) (g_memo g)) as [n0|].
+    { injection E as <- <- <-. destruct Hv. }
+    destruct (cis_abs f); [discriminate|].
+    match type of E with
+    | match ?cc with _ => _ end = _ => destruct cc as [[[fnode g1] ev1]|] eqn:Ef; [|discriminate]
+    end.
+    assert (Hx : exists y xc b' gx xn g7 ev2, concepts y xc b' gx = Some (xn, g7, ev2) /\
+               LeafStmt y /\ incl (cleaves y) (cleaves x) /\ evs = ev1 ++ ev2).
+    { destruct fn.
+      - destruct x as [xi xt | xv | xi xj xout | xi xf xx xfn | xj xps xb].
+        1-4: match type of E with
+             | match ?cc with _ => _ end = _ =>
+                 destruct cc as [[[xn g7] ev2]|] eqn:Ex; [|discriminate]
+             end; injection E as <- <- <-;
+             eexists _, _, _, _, xn, g7, ev2; (split; [exact Ex|]); (split; [exact IHx|]);
+             (split; [apply incl_refl | reflexivity]).
+        match type of E with
+        | match ?cc with _ => _ end = _ =>
+            destruct cc as [[[xn g7] ev2]|] eqn:Ex; [|discriminate]
+        end. injection E as <- <- <-.
+        eexists _, _, _, _, xn, g7, ev2. split; [exact Ex|]. split; [exact (IHb _ _ _ eq_refl)|].
+        split; [cbn [cleaves]; apply incl_refl | reflexivity].
+      - match type of E with
+        | match ?cc with _ => _ end = _ =>
+            destruct cc as [[[xn g7] ev2]|] eqn:Ex; [|discriminate]
+        end. injection E as <- <- <-.
+        eexists _, _, _, _, xn, g7, ev2. split; [exact Ex|]. split; [exact IHx|].
+        split; [apply incl_refl | reflexivity]. }
+    destruct Hx as (y & xc & b' & gx & xn & g7 & ev2 & Ex & IHy & Hi & ->).
+    cbn [cleaves]. apply in_app_or in Hv as [Hv|Hv].
+    + destruct (IHf _ _ _ _ _ _ Ef v Hv) as (l & Hl & Hm). exists l. split; [|exact Hm].
+      apply in_or_app. now left.
+    + destruct (IHy _ _ _ _ _ _ Ex v Hv) as (l & Hl & Hm). exists l. split; [|exact Hm].
+      apply in_or_app. right. apply Hi. exact Hl.
+  - split.
+    + intros cur im g n g' evs E v Hv. cbn [concepts] in E.
+      destruct (memo_find (ckey (CAbs j ps b)) (g_memo g)) as [n0|]; [|discriminate].
+      injection E as <- <- <-. destruct Hv.
+    + intros j' ps' b' [= _ _ <-]. apply IHb.
+Qed.
+
+Theorem concepts_leaves e cur im g n g' evs : concepts e cur im g = Some (n, g', evs) ->
+  forall v, In v evs -> exists l, In l (cleaves e) /\ ev_of_leaf v l.
+Proof. apply leaves_rec. Qed.
+
+Theorem concepts_seq_leaves : forall es g g' evs, concepts_seq es g = Some (g', evs) ->
+  forall v, In v evs -> exists e l, In e es /\ In l (cleaves e) /\ ev_of_leaf v l.
+Proof.
+  induction es as [|e r IH]; intros g g' evs E v Hv; cbn [concepts_seq] in E.
+  - injection E as <- <-. destruct Hv.
+  - destruct (memo_find (ckey e) (g_memo g)) as [n0|].
+    { destruct (IH _ _ _ E v Hv) as (e0 & l & He0 & Hl). exists e0, l. split; [now right | exact Hl]. }
+    destruct (concepts e None false g) as [[[n g1] ev1]|] eqn:Ec; [|discriminate].
+    destruct (concepts_seq r (set_memo (ckey e) n g1)) as [[g2 ev2]|] eqn:Er; [|discriminate].
+    injection E as <- <-. apply in_app_or in Hv as [Hv|Hv].
+    + destruct (concepts_leaves _ _ _ _ _ _ _ Ec v Hv) as (l & Hl). exists e, l. split; [now left | exact Hl].
+    + destruct (IH _ _ _ Er v Hv) as (e0 & l & He0 & Hl). exists e0, l. split; [now right | exact Hl].
+Qed.
